@@ -596,6 +596,12 @@ func (g *g12) blockTopic() {
 			resign(sb.Message.ProposerIndex)
 		})})
 	}
+	if built.Signed.Message.Fork == refspec.Bellatrix {
+		corrs = append(corrs, corr{"empty-payload-after-the-merge", expRefuse, mut(func(sb *refspec.SignedBlock, resign func(uint64)) {
+			sb.Message.Body.ExecutionPayload = refspec.ExecutionPayload{LogsBloom: make([]byte, c.Sp.BYTES_PER_LOGS_BLOOM), ExtraData: []byte{}}
+			resign(sb.Message.ProposerIndex)
+		})})
+	}
 	if built.Signed.Message.Fork >= refspec.Deneb {
 		corrs = append(corrs, corr{"more-blob-commitments-than-blobs-allowed", expRefuse, mut(func(sb *refspec.SignedBlock, resign func(uint64)) {
 			for uint64(len(sb.Message.Body.BlobKZGCommitments)) <= uint64(v.zspec.MAX_BLOBS_PER_BLOCK) {
@@ -1050,6 +1056,16 @@ func (g *g12) attestationTopics() {
 				g.judge("aggregate", cr.name, s, cr.expect, runG(cr.m))
 				if g.judge("aggregate", "honest-after-"+cr.name, s, expAccept, runG(honestAgg)) == gossipval.ACCEPT {
 					g.b.Inc("honest_after_refused_accept")
+				}
+			}
+			// the identical aggregate forwarded by another selected aggregator of the committee
+			for _, other := range committee {
+				if other != aggregator && selected(g.selProof(vt.tst, other, s), modulo) {
+					v.fresh()
+					v.setClock(headSlot+1, 0)
+					g.judge("aggregate", "honest", s, expAccept, runG(honestAgg))
+					g.judge("aggregate", "same-aggregate-by-another-aggregator", s, expIgnore, runG(g.mkAgg(vt, data, all, other, nil)))
+					break
 				}
 			}
 			// a second, different aggregate by the same aggregator in the same epoch
